@@ -75,7 +75,8 @@ CropSpec(im, mn, mx, constrain) ==
 Rots == [r90 |-> Lin2(Z0,R(-1),R(1),Z0), r180 |-> Lin2(R(-1),Z0,Z0,R(-1)), r270 |-> Lin2(Z0,R(1),R(-1),Z0),
          p345 |-> Lin2(<<3,5>>,<<-4,5>>,<<4,5>>,<<3,5>>), p345n |-> Lin2(<<3,5>>,<<4,5>>,<<-4,5>>,<<3,5>>), p51213 |-> Lin2(<<5,13>>,<<-12,13>>,<<12,13>>,<<5,13>>)]
 \* ---- state machine --------------------------------------------------------------------------------------
-Mask0 == [x \in Grid(Shape0) |-> IF (x[1] + 2 * x[2]) % 3 = 0 THEN 0 ELSE 1]
+\* ("fullmask" in Ops: the initial mask is all true - the default mask of a MaskedImage - instead of the sparse pattern)
+Mask0 == [x \in Grid(Shape0) |-> IF "fullmask" \notin Ops /\ (x[1] + 2 * x[2]) % 3 = 0 THEN 0 ELSE 1]
 Img0 == [shape |-> Shape0, A |-> IdM(3), valid |-> Grid(Shape0),
          lms |-> << <<R(1),R(1)>>, <<<<3,2>>, <<9,4>>>>, <<R(Shape0[1]-2), <<5,2>>>> >>, mask |-> Mask0]
 MaskSeq(im) == [i \in 1..im.shape[1] |-> [j \in 1..im.shape[2] |-> im.mask[<<i-1, j-1>>]]]
